@@ -39,6 +39,10 @@ def run(ctx):
         "(corpus + mutants; thorough tier: both solvers) are accepted by the model; (b) a necessary part of "
         "libfunc_cost_ok on the CASM the compiler emits now: 90*steps(path) <= declared Const cost for every internal "
         "path of every statement (range checks/holes are not counted statically).",
-        sc.TRUSTED + ["static step count per path in harness/h15; builtin-token branches and gas/coupon libfuncs excluded"],
+        sc.TRUSTED + ["libfunc-level premises (branch_dyn) are additionally PROVED, for the 2164 statements of the C03/C06 "
+                      "wrapper set (503 libfunc instantiations), over the translator-regenerated code objects: "
+                      "coq/Props/C17_libfuncs.v (C17_libfunc_ap_exact, C04_libfunc_steps_bound, C04_libfunc_cost_bound), "
+                      "re-checked by ./check C03",
+                      "static step count per path in harness/h15; builtin-token branches and gas/coupon libfuncs excluded"],
         "make coq/Sierra && coqc Props/C04.v ; harness/h15 <corpus> -> coqc out/C04/cases/acc_*.v",
     )
